@@ -136,6 +136,7 @@ let dispatch cmd r =
   | "bbox" -> let f = next_arr r in
       out_lists [bbox_generic f; (if List.length f.shape = 2 then bbox_fast2 f else bbox_generic f); bbox_spec f]
   | "bbox_labeled" -> let f = next_arr r in let n = next_z r in out_lists (bbox_labeled_spec f n)
+  | "bbox_labeled_model" -> let f = next_arr r in let n = next_z r in out_lists (bbox_labeled f n)
   | "hist" -> let l = next_list r in out_list (fullhistogram l)
   | "com" -> let f = next_arr r in let lab = next_list r in let l = next_z r in
       let (t, s) = com_sums f lab l in out_lists [[t]; s]
